@@ -15,3 +15,11 @@ func verifYieldRead() {
 		f("fpread")
 	}
 }
+
+// verifYieldWriteSide is put before every "<x>.Mu.Lock()" statement of this package, if
+// there is one (the writing side of the captured data, should it live here).
+func verifYieldWriteSide() {
+	if f := VerifYield; f != nil {
+		f("fpwrite")
+	}
+}
